@@ -356,14 +356,17 @@ func (ip *Interp) tryRecv(ch *ChanObj) (Value, bool, bool) {
 	if ch.env {
 		if ip.conc.envTicks > 0 {
 			ip.conc.envTicks--
+			ip.syncAcquire(ip.conc) // the firing was granted by the harness (EnvTicks): its earlier actions happen before
 			return ip.zero(ch.elemT), true, true
 		}
 		return nil, false, false
 	}
 	if len(ch.buf) > 0 || len(ch.sendq2) > 0 || ch.closed {
 		ip.syncAcquire(ch)
-		if ch.cap > 0 {
-			ip.syncRelease(ch) // the k-th receive happens before the (k+cap)-th send completes
+		if ch.cap > 0 || len(ch.sendq2) > 0 {
+			// the k-th receive happens before the (k+cap)-th send completes; on an unbuffered channel the receive
+			// happens before the completion of the send it meets (the blocked sender acquires when it resumes)
+			ip.syncRelease(ch)
 		}
 	}
 	if len(ch.buf) > 0 {
@@ -414,6 +417,10 @@ func (ip *Interp) trySend(ch *ChanObj, v Value) bool {
 		ip.goPanic("send on closed channel")
 	}
 	if len(ch.recvq2) > 0 || len(ch.buf) < ch.cap {
+		if ch.cap == 0 && len(ch.recvq2) > 0 && ip.raceOn() {
+			// unbuffered rendezvous with a waiting receiver: the receive happens before this send completes
+			ip.clockOf(ch).join(ch.recvq2[0].g.vc)
+		}
 		ip.syncAcquire(ch)
 		ip.syncRelease(ch)
 	}
@@ -468,6 +475,7 @@ func (ip *Interp) chanRecv(ch *ChanObj) (Value, bool) {
 	ip.block(func() bool { return g.completed != nil || (isEnv && ip.conc.envTicks > 0) }, "chan receive")
 	if g.completed == nil {
 		ip.conc.envTicks--
+		ip.syncAcquire(ip.conc)
 		return ip.zero(ch.elemT), true
 	}
 	ip.syncAcquire(ch)
@@ -578,6 +586,7 @@ func (ip *Interp) selectOp(fr *Frame, x *ssa.Select) Value {
 		// woken by an environment event (ticker / time.After) that became available
 		ip.unregister(g)
 		ip.conc.envTicks--
+		ip.syncAcquire(ip.conc)
 		return result(envArm, ip.zero(arms[envArm].ch.elemT), true)
 	}
 	r := g.completed
